@@ -210,6 +210,11 @@ func (c *c03Case) Sx() string {
 	if c.Fatal != "" || c.OpenErr != "" {
 		return ""
 	}
+	for _, kv := range c.KVs {
+		if len(kv.V) > 256<<10 {
+			return "" // megabyte values: oracle only
+		}
+	}
 	if len(c.KVs) > 400 {
 		return "" // tables of thousands of keys are judged by the oracle only (the model's byte-level evaluation of such files needs tens of gigabytes)
 	}
@@ -422,6 +427,17 @@ func genC03(r *rand.Rand, tier string) []Case {
 			c.SeekLen = []int{0, 4, 7, 16, 64}[r.Intn(5)]
 		}
 		c.Probes, c.Bounds = tblProbes(r, c.KVs, width, 16)
+		cases = append(cases, c)
+	}
+	// values above one mebibyte (buffer pools have size classes), uncompressed and compressed data files
+	for k := 0; k < 2; k++ {
+		c := &c03Case{Loader: []string{"slice", "disk"}[k], RBuf: 4096}
+		c.Opts = tblOpts{IndexComp: 0, DataComp: []int{0, 2}[k], BloomN: 10, BloomP: 0.01, WBuf: 4096}
+		big := make([]byte, 1<<20+1+r.Intn(1000))
+		r.Read(big)
+		c.KVs = []tblKV{{K: []byte("a"), V: []byte("small")}, {K: []byte("b"), V: big}, {K: []byte("c"), V: []byte("after")}}
+		c.Probes = [][]byte{[]byte("a"), []byte("b"), []byte("c"), []byte("bb")}
+		c.Bounds = [][2][]byte{{[]byte("a"), []byte("c")}, {[]byte("b"), []byte("b")}}
 		cases = append(cases, c)
 	}
 	// a key that contains the complete image of an index record (under the disk loader the index file is scanned for
